@@ -23,6 +23,7 @@ class PMUnit(Unit):
     """Shared by the token units of the three format crates."""
     monad = "PM"
     get, modify, panic, assert_, usub, lift_opt = "PMExt.getLR", "PMExt.modifyLR", "(PM.rpanic \"generated\")", "PMExt.assert", "PMExt.usub", "PMExt.liftOpt"
+    uadd = "PMExt.uadd"
     state_vars = {"input"}
     state_subobjects = {"reader"}
     state_types = ("LineReader",)
